@@ -1882,6 +1882,22 @@ def w_completion(failure, tier):
             return dict(found=True, cmd='%s search <<< hex(json)' % BIN,
                         input='10 documents, two for each of %s; fuzzy completion on body, prefix %s, max_edits 1' % (words, _json.dumps(w, ensure_ascii=False)),
                         observed='options %s' % got, expected='the term itself with doc_freq 2 among the options')
+    # one edit is one CHARACTER: a prefix that lacks (or has one extra) multi-byte character is within max_edits 1 of the term
+    pairs = [("jalapeo", "jalapeño"), ("mller", "müller"), ("приет", "привет"), ("日語", "日本語"), ("jalapeñño", "jalapeño")]
+    docs = [{"_id": "m%d_%d" % (i, c), "body": t} for i, (_p, t) in enumerate(pairs[:4]) for c in range(2)]
+    for (pfx, term) in pairs:
+        freq = dict(REQ_BASE, query={"type": "match_all"}, limit=1,
+                    suggest={"s": {"type": "completion", "field": "body", "prefix": pfx, "size": 5,
+                                   "fuzzy": {"max_edits": 1, "prefix_length": 1, "max_expansions": 20, "min_length": 2}}})
+        out, err = drive_search({"schema": None, "batches": [docs[:4], docs[4:]], "requests": [freq]})
+        if out is None or 'ok' not in out[0]:
+            return dict(found=False, note='search driver failed: %s' % (err or str(out)[:200]))
+        got = [(o['text'], o['doc_freq']) for o in out[0]['ok'].get('suggest', {}).get('s', {}).get('options', [])]
+        n += 1
+        if (term, 2) not in got:
+            return dict(found=True, cmd='%s search <<< hex(json)' % BIN,
+                        input='8 documents in 2 segments, two for each of %s; fuzzy completion on body, prefix %s (one character away from %s), max_edits 1' % ([t for (_p, t) in pairs[:4]], _json.dumps(pfx, ensure_ascii=False), _json.dumps(term, ensure_ascii=False)),
+                        observed='options %s' % got, expected='%s with doc_freq 2 among the options' % term)
     return dict(found=False, note='completion: %d (corpus, size, segment layout) combinations agree with the document counts of the corpus (prefix) or with the single-segment answer (fuzzy)' % n)
 
 
